@@ -134,6 +134,16 @@ var (
 	Tier    string
 )
 
+// ModDir returns the directory a generated module with the given digest is
+// written to. It is a function of (TMPDIR, engine, tier, digest) only, never
+// of the random scratch directory of a check invocation: absolute file names
+// end up in cached results, hence in content hashes, hence in the names and
+// the sub-directories of cache files, hence in the order in which Trim
+// visits them. A replay in the same sandbox must see the same names.
+func ModDir(engine, digest string) string {
+	return filepath.Join(os.TempDir(), "verif-mods", engine+"-"+Tier, digest)
+}
+
 // WorkerEnv, if set, returns additional environment variables for worker wid.
 var WorkerEnv func(wid int) []string
 
@@ -430,7 +440,10 @@ func runParent(e Engine, tier string, seed uint64, workers int, budget time.Dura
 			if len(tail) > 6000 {
 				tail = tail[len(tail)-6000:]
 			}
-			fmt.Fprintf(os.Stderr, "batch: worker %d of %s died (%v) while running case %d; stderr tail:\n%s\n", w, e.Name(), r.err, last, tail)
+			os.MkdirAll(replayDir, 0777)
+			full := filepath.Join(replayDir, fmt.Sprintf("worker-death-%s-%d-case%d.log", e.Name(), seed, last))
+			os.WriteFile(full, []byte(r.stderr), 0666)
+			fmt.Fprintf(os.Stderr, "batch: worker %d of %s died (%v) while running case %d (full stderr: %s); stderr tail:\n%s\n", w, e.Name(), r.err, last, full, tail)
 			if last >= 0 && (strings.Contains(r.stderr, "fatal error:") || strings.Contains(r.stderr, "panic:")) && !strings.Contains(r.stderr, "WATCHDOG") {
 				c := e.Generate(mix(seed, last), last, tier)
 				viols = append(viols, foundViolation{last, c, Violation{Class: "process-fatal", Detail: lastLines(r.stderr, 30)}, 0})
@@ -597,6 +610,9 @@ func doReplay(e Engine, path string) int {
 	if rf.Engine != e.Name() {
 		fmt.Fprintf(os.Stderr, "replay file is for engine %s, this is %s\n", rf.Engine, e.Name())
 		return 2
+	}
+	if rf.Tier != "" {
+		Tier = rf.Tier // generated directories depend on it
 	}
 	startWatchdog()
 	armWatchdog("replay", 10*time.Minute)
